@@ -102,7 +102,7 @@ def _jcfg(cfg):
 
 
 # ---- largest-first, decided differentially (no hand-written expectation)
-def _lf_run(side, sizes, price_k, auto, order=None):
+def _lf_run(side, sizes, price_k, auto, order=None, gap=0):
     """side S: USD loans, a market SELL of 1 BTC whose proceeds (price) can afford some of them. side B: BTC loans, a
     market BUY of n BTC. Everything else the account owns is locked by a far limit order, so only what the order
     acquires can repay. auto=True: the order has auto_repay. auto=False: same order without auto_repay, followed at the
@@ -133,17 +133,30 @@ def _lf_run(side, sizes, price_k, auto, order=None):
         call(e._on_bar_event(bs.BarEvent(T(t), bs.Bar(T(t - 1), P, p, p, p, p, D(1000)))))
     bar(1, 100)
     B, S = bs.OrderOperation.BUY, bs.OrderOperation.SELL
+    t = [1]
+
+    def loans(symbol, amounts):
+        # gap > 0: the loans are opened `gap` bars apart, so they differ in AGE (and in accrued interest, which is charged in
+        # USD whatever was borrowed): "largest" is about the principal, not about principal plus interest
+        out = []
+        for k, a in enumerate(amounts):
+            if k and gap:
+                for _ in range(gap):
+                    t[0] += 1
+                    bar(t[0], 100)
+            out.append(call(e.create_loan(symbol, a)).id)
+        return out
     if side == "S":
-        lids = [call(e.create_loan("USD", D(50 * n))).id for n in sizes]
+        lids = loans("USD", [D(50 * n) for n in sizes])
         total = sum(50 * n for n in sizes)
         call(e.create_limit_order(B, P, D(1), D(total)))          # locks all borrowed USD
         call(e.create_market_order(S, P, D(1), auto_repay=auto))
-        bar(2, price_k)                                            # proceeds = price_k
+        bar(t[0] + 1, price_k)                                     # proceeds = price_k
     else:
-        lids = [call(e.create_loan("BTC", D(n))).id for n in sizes]
+        lids = loans("BTC", [D(n) for n in sizes])
         call(e.create_limit_order(S, P, D(sum(sizes)), D(100000)))  # locks all borrowed BTC
         call(e.create_market_order(B, P, D(price_k), auto_repay=auto))  # acquires price_k BTC
-        bar(2, 90 if tight else 100)
+        bar(t[0] + 1, 90 if tight else 100)
     if not auto:
         for i in order:
             try:
@@ -162,18 +175,18 @@ def _largest_first(sc, res):
     ks = (40, 60, 110, 160, 220, 320) if side == "S" else (1, 2, 3, 4, 5, 6)
     if side == "B2":
         ks = (1, 2, 3)
-    for k in ks:
-        a = _lf_run(side, sizes, k, True)
+    for k, gap in [(k, g) for k in ks for g in ((0, 3) if side != "B2" else (0,))]:
+        a = _lf_run(side, sizes, k, True, gap=gap)
         n = len(sizes)
         orders = [p for p in itertools.permutations(range(n))
                   if all(sizes[p[i]] >= sizes[p[i + 1]] for i in range(n - 1))]  # descending principal, every tie order
-        refs = [_lf_run(side, sizes, k, False, list(p)) for p in orders]
+        refs = [_lf_run(side, sizes, k, False, list(p), gap=gap) for p in orders]
         res.executions += 1 + len(refs)
         res.transitions += 1 + len(refs)
-        res.states.add(h64((side, sizes, k, repr(a))))
+        res.states.add(h64((side, sizes, k, gap, repr(a))))
         if any(not lo[2] for lo in a[1]):
-            res.nontrivial.add(h64((side, sizes, k)))
-        case = dict(kind="largest-first", side=side, sizes=list(sizes), k=k)
+            res.nontrivial.add(h64((side, sizes, k, gap)))
+        case = dict(kind="largest-first", side=side, sizes=list(sizes), k=k, gap=gap)
         if a not in refs:
             res.violation(f"{PROPERTY}:largest-first", f"auto-repay order closed with loans {a[1]} / balances {a[0]}; "
                           f"explicit largest-first repayment gives loans {refs[0][1]} / balances {refs[0][0]}; {case}", case,
@@ -235,7 +248,8 @@ def run_scenario(sc, tier):
 def replay(rep):
     if rep.get("kind") == "largest-first":
         res = _largest_first(("largest-first", rep["side"], tuple(rep["sizes"])), Result())
-        return [v["message"] for v in res.violations if f"'k': {rep['k']}" in v["message"]]
+        return [v["message"] for v in res.violations if f"'k': {rep['k']}," in v["message"]
+                and f"'gap': {rep.get('gap', 0)}" in v["message"]]
     if rep.get("kind") == "interest-grid":
         from worlds import exch, exch_bfs
         exch.install_deterministic_ids()
